@@ -113,8 +113,8 @@ def run(ctx, rep):
                         "explicit failure construct %s in a function that holds the caller's I/O objects" % cn)
     r5(F, rep, "R5", scope)
     rep.floor("R1", "eof-probe", n_probe, 1)
-    rep.floor("R2", "source-reads", n_read, 4)
-    rep.floor("R2", "destination-writes", n_write, 4)
+    rep.floor("R2", "source-reads", n_read, 2)
+    rep.floor("R2", "destination-writes", n_write, 2)
     # ---- R4 ordering ----------------------------------------------------------------------------
     b = F.body(PC + "read_chunk_block")
     rc = [(bb, t) for bb, t in b.calls() if strip_generics(callee_def(t)) == PC + "recompress_deflate_stream"]
